@@ -83,6 +83,26 @@ fn install_from(idt: &mut InterruptDescriptorTable, lo: u8) {
 fn install_all(idt: &mut InterruptDescriptorTable) {
     set_general_handler!(idt, general);
 }
+/// the single-index form for a list of literal vectors (each literal is its own macro expansion with its own stub)
+macro_rules! single_index_installers {
+    ($($v:literal)*) => {
+        const SINGLE: &[(u8, fn(&mut InterruptDescriptorTable))] = &[
+            $( ($v, { fn f(idt: &mut InterruptDescriptorTable) { set_general_handler!(idt, general, $v); } f }), )*
+        ];
+    };
+}
+single_index_installers!(0 1 2 3 7 8 9 10 13 15 16 17 18 21 22 27 28 29 30 31 32 33 128 254 255);
+
+/// the table argument of the macro is an expression like any other: it is evaluated once
+static TABLE_EXPR_EVALUATIONS: core::sync::atomic::AtomicU32 = core::sync::atomic::AtomicU32::new(0);
+fn counted<'a>(t: &'a mut InterruptDescriptorTable) -> &'a mut InterruptDescriptorTable {
+    TABLE_EXPR_EVALUATIONS.fetch_add(1, core::sync::atomic::Ordering::Relaxed);
+    t
+}
+fn install_through_side_effecting_expression(idt: &mut InterruptDescriptorTable, lo: u8, hi: u8) {
+    set_general_handler!(counted(idt), general, lo..=hi);
+}
+
 fn install_14(idt: &mut InterruptDescriptorTable) {
     set_general_handler!(idt, general, 14);
 }
@@ -267,6 +287,43 @@ fn ranges(rep: &mut Report, r: &mut Rng, a: &Args, stubs_all: &[u64; 256], cs: u
         rep.exhaustive.push("set_general_handler: all 65536 (lo,hi) pairs as lo..=hi (sharded by lo), all 256 lo.. forms".into());
     }
     rep.count("range_installations_checked", n);
+    // every literal single-index form installs exactly that vector (nothing for a reserved one)
+    for &(v, f) in SINGLE.iter() {
+        rep.eval();
+        let mut idt = base.clone();
+        f(&mut idt);
+        let after = bytes_of(&idt);
+        let vv = v as usize;
+        for w in 0..256usize {
+            let changed = before[16 * w..16 * w + 16] != after[16 * w..16 * w + 16];
+            let (off, sel, present, typ) = gate(&after, w);
+            let installed = present && typ == 0xE && sel == cs && off != 0;
+            let bad = if w == vv && !reserved(vv) { !installed } else { changed };
+            if bad {
+                rep.violation("set_general_handler(literal-index)|does-not-install-exactly-that-vector", J::obj(vec![("literal", J::U(v as u64)), ("vector_looked_at", J::U(w as u64)), ("changed", J::Bool(changed)), ("installed", J::Bool(installed))]));
+                break;
+            }
+        }
+        if !reserved(vv) {
+            let (off, _, _, _) = gate(&after, vv);
+            let mut st = [0u64; 256];
+            st[vv] = off;
+            enter(rep, r, &st, vv, scratch, resume, cs, ss);
+        }
+        rep.class(&format!("install|literal-index|{}", if reserved(vv) { "reserved" } else { "plain" }));
+    }
+    // the table expression is evaluated once per invocation
+    {
+        rep.eval();
+        let mut idt = base.clone();
+        TABLE_EXPR_EVALUATIONS.store(0, core::sync::atomic::Ordering::Relaxed);
+        install_through_side_effecting_expression(&mut idt, 3, 40);
+        let n = TABLE_EXPR_EVALUATIONS.load(core::sync::atomic::Ordering::Relaxed);
+        if n != 1 {
+            rep.violation("set_general_handler|table-expression-evaluated-more-than-once", J::U(n as u64));
+        }
+        rep.class("install|table-expression-with-side-effect");
+    }
     let s14 = learn(&|i| install_14(i));
     let mut idt = base.clone();
     install_14(&mut idt);
